@@ -320,7 +320,7 @@ pub fn explore(ctx: &Ctx, obs: &Observer) {
         big.par_iter().for_each(|cfg| {
             let k = 1usize << cfg.lg_k;
             let _ = k;
-            if cfg.lg_k <= 12 {
+            if cfg.lg_k <= 10 {
                 run_deep(ctx, cfg, 1, 4, 1, obs, &edges);
             } else {
                 run_deep(ctx, cfg, 0, 1, 1, obs, &edges);
